@@ -68,6 +68,9 @@ package cisco
 //vc:  ensures[C18] @restKeptBehindAppend len(appendACL) > 0 ==> (forall j int :: mergeI + len(appendACL) <= j && j < len(b0.sub) ==> !strings.HasPrefix(b0.sub[j].parsed, "permit "))
 //vc:  ensures[C18] @prependFirst (forall j int :: 0 <= j && j < len(prependACL) && (len(appendACL) == 0 || j < mergeI) ==> b0.sub[j] == prependACL[j])
 //vc:  ensures[C18] @nothingLost len(b0.sub) == len(prependACL) + len(appendACL) + ite(len(old(ab.aCmds)) > 0, len(old(ab.aCmds[0].sub)), 0)
+// every line of the merged ACL names the stored command as its parent: an incremental change of the line is sent under that command's (device) name
+//vc:  invariant[C18] 4 "for _, c := range acl" @linesKnowParentSoFar -1 <= rangeindex && rangeindex < len(acl) && (forall k int :: { acl[k] } 0 <= k && k <= rangeindex ==> acl[k].subCmdOf == b0)
+//vc:  ensures[C18] @mergedLinesKnowParent forall j int :: { b0.sub[j] } 0 <= j && j < len(b0.sub) ==> b0.sub[j].subCmdOf == b0
 
 // ASA: prepend ++ Netspoc lines (a terminating 'deny ip any6 any6' of the other
 // part goes to the end) and the [APPEND] block directly behind the last permit line.
@@ -226,3 +229,10 @@ package cisco
 // incremental change of that sub-command is sent under the parent's name.
 //vc:func mergeSubCmds
 //vc:  assert[C18] after "bs.subCmdOf = a" @adoptedSubKnowsParent len(a.sub) > 0 && a.sub[len(a.sub)-1] == bs && bs.subCmdOf == a
+
+// postprocessParsed: an IOS ACL may occur several times in a raw file (its
+// lines are concatenated by mergeIOSACLs); the lines of every occurrence must
+// be normalised, not only those of the first one (structural guard: the call
+// sits in a loop over the occurrences `acl` of the list `l`).
+//vc:func postprocessParsed
+//vc:  assert[C18] at "postprocessIOSACL(c)" @everyOccurrenceNormalised acl != nil && c != nil
